@@ -31,7 +31,9 @@ Do not edit tests. Keep the change small (a few lines, at most two files). Read 
 
 Then write a demonstration: a small stand-alone Python program (or pytest file) {wt}/_seed/demo.py that exercises the
 real code and FAILS (non-zero exit / failing assertion) with your change applied and PASSES on the original code.
-Verify both directions yourself (use `git stash` / `git checkout -- src` to go back and forth), and verify the existing
+Verify both directions yourself. IMPORTANT: do NOT use `git stash` (the stash is shared with other worktrees of the same
+repository and would collide with other people's work); instead save your change with `git -C {wt} diff -- src > {wt}/_seed/patch.diff`,
+go back with `git -C {wt} checkout -- src` and re-apply with `git -C {wt} apply {wt}/_seed/patch.diff`. Also verify the existing
 suite still passes with the change applied.
 
 Deliverables (all inside {wt}/_seed/):
